@@ -486,6 +486,37 @@ static int t_mpq (const char *f, int budget)
   printf ("PASS %d\n", budget / 10 + 1); return 0;
 }
 
+/* infinite two's-complement bit b of z, from first principles: negative z = ~(|z| - 1) */
+static int ref_tcbit (const mpz_t z, unsigned long b)
+{
+  int n = abs (z->_mp_size); unsigned long k = b / 64;
+  if (z->_mp_size >= 0) return k < (unsigned long) n ? (z->_mp_d[k] >> (b % 64)) & 1 : 0;
+  L t[MAXN + 2]; L one[1] = {1}; ref_sub (t, z->_mp_d, n, one, 1);
+  return k < (unsigned long) n ? ((~t[k]) >> (b % 64)) & 1 : 1;
+}
+static int t_mpz_bits (const char *f, int budget)
+{
+  for (int it = 0; it < budget; it++)
+    {
+      mpz_t z; mk_mpz (z, 6);
+      int n = abs (z->_mp_size);
+      if (n >= 3 && it % 2) { int lo = rnd64 () % (n - 1), hi = lo + rnd64 () % (n - 1 - lo); for (int i = lo; i <= hi; i++) z->_mp_d[i] = (it % 4 == 1) ? 0 : ~(L) 0; }   /* interior runs of 0 / all-ones limbs */
+      unsigned long sb = rnd64 () % (64 * (n + 2) + 1);
+      unsigned long got, want;
+      if (!strcmp (f, "mpz_tstbit")) { got = mpz_tstbit (z, sb); want = ref_tcbit (z, sb); }
+      else
+        {
+          int w = !strcmp (f, "mpz_scan1");
+          got = w ? mpz_scan1 (z, sb) : mpz_scan0 (z, sb);
+          want = sb; while (want < 64UL * (n + 3) && ref_tcbit (z, want) != w) want++;
+          if (want >= 64UL * (n + 3)) want = ~0UL;
+        }
+      if (got != want) { failed (f); show_z ("z", z); printf (" start_bit=%lu got=%lu want=%lu\n", sb, got, want); return 1; }
+      mpz_clear (z);
+    }
+  printf ("PASS %d\n", budget); return 0;
+}
+
 int main (int argc, char **argv)
 {
   if (argc < 4) { fprintf (stderr, "usage: native <function> <seed> <budget>\n"); return 2; }
@@ -500,6 +531,7 @@ int main (int argc, char **argv)
   if (!strcmp (f, "mpz_add") || !strcmp (f, "mpz_sub")) return t_mpz_aors (f, budget);
   if (!strcmp (f, "mpz_neg") || !strcmp (f, "mpz_abs") || !strcmp (f, "mpz_set") || !strcmp (f, "mpz_swap")) return t_mpz_copy (f, budget);
   if (!strcmp (f, "mpz_cmp") || !strcmp (f, "mpz_cmpabs")) return t_mpz_cmp (f, budget);
+  if (!strcmp (f, "mpz_tstbit") || !strcmp (f, "mpz_scan0") || !strcmp (f, "mpz_scan1")) return t_mpz_bits (f, budget);
   if (!strncmp (f, "mpz_fdiv", 8) || !strncmp (f, "mpz_cdiv", 8) || !strcmp (f, "mpz_mod")) return t_mpz_div (f, budget);
   if (!strncmp (f, "mpz_cmp", 7) || !strncmp (f, "mpz_fits", 8) || !strncmp (f, "mpz_get", 7) || !strncmp (f, "mpz_set_", 8)) return t_mpz_c11 (f, budget);
   if (!strcmp (f, "raw")) { int r1 = t_raw (f, budget); return r1 ? r1 : t_raw_leak (budget); }
